@@ -35,13 +35,15 @@ impl Wake for CountWake {
 pub fn scenario() {
     crate::record::begin();
     let mut rng = thread_rng();
-    clock::set_tick(*[1_000u64, 100_000, 3_000_000].get(rng.gen_range(0..3)).unwrap());
+    let tick = *[1_000u64, 100_000, 3_000_000].get(rng.gen_range(0..3)).unwrap();
+    clock::set_tick(tick);
     let time_thread = thread::spawn(clock::run_time_thread);
     let driver = TimerDriver::new();
     let executor = Executor::new();
     let pick = rng.gen_range(0..5);
+    crate::simstd::thread::SPURIOUS.store(true, Ordering::Relaxed);
     let pick = std::env::var("VERIF_C42_ONLY").ok().and_then(|v| v.parse().ok()).unwrap_or(pick);
-    crate::record::sample(|| format!("std runtime scenario '{}' with a clock tick of {} ns per reading", ["concurrent sleeps", "cancelled sleep", "executor tasks + join", "block_timeout", "cross-thread wake of block_on"][pick as usize], clock::stats().0 * 0 + clock::tick()));
+    crate::record::sample(|| format!("std runtime scenario '{}' with a clock tick of {} ns per reading", ["concurrent sleeps", "cancelled sleep", "executor tasks + join", "block_timeout", "cross-thread wake of block_on"][pick as usize], tick));
     match pick {
         0 => sleeps(&driver),
         1 => cancel(&driver),
@@ -99,12 +101,24 @@ fn cancel(driver: &TimerDriver) {
     let mut s = Box::pin(timer.sleep(d1));
     let t_poll = Instant::now();
     let first = s.as_mut().poll(&mut cx);
+    // a pending sleep is usually polled again before it is dropped (its task was woken for another reason)
+    let mut still_pending = first.is_pending();
     for _ in 0..rng.gen_range(0..3) {
         thread::sleep(Duration::ZERO);
+        if still_pending && rng.gen_bool(0.7) {
+            still_pending = s.as_mut().poll(&mut cx).is_pending();
+        }
     }
     drop(s);
     let t_drop = Instant::now();
-    let judged = first.is_pending() && t_drop < t_poll + d1;
+    let judged = first.is_pending() && still_pending && t_drop < t_poll + d1;
+    // A zero-length sleep is queued behind the cancellation: when it completes, the timer thread has processed
+    // the cancellation. If the clock is still before the deadline then, a later wake cannot be blamed on a
+    // timer thread that got to the cancellation too late.
+    crate::simstd::thread::SPURIOUS.store(false, Ordering::Relaxed);
+    block_on(timer.sleep(Duration::ZERO));
+    crate::simstd::thread::SPURIOUS.store(true, Ordering::Relaxed);
+    let cancel_processed_in_time = Instant::now() < t_poll + d1;
     // let the clock pass the deadline of the dropped sleep
     block_on(timer.sleep(d1 + Duration::from_millis(5)));
     drop(timer);
@@ -112,7 +126,10 @@ fn cancel(driver: &TimerDriver) {
         CANCELS_JUDGED.fetch_add(1, Ordering::Relaxed);
         let n = cw.0.load(Ordering::SeqCst);
         if n != 0 {
-            panic!("C42.cancelled-sleep-woke: a sleep of {d1:?} polled at {} ns and dropped at {} ns (before its deadline) woke its task {n} time(s)", t_poll.0, t_drop.0);
+            if cancel_processed_in_time {
+                panic!("C42.cancelled-sleep-woke-after-cancel-processed: a sleep of {d1:?} polled at {} ns and dropped at {} ns woke its task {n} time(s) although the timer thread had processed its cancellation before the deadline", t_poll.0, t_drop.0);
+            }
+            crate::record::violation("C42.cancelled-sleep-woke", format!("C42.cancelled-sleep-woke: a sleep of {d1:?} polled at {} ns and dropped at {} ns (before its deadline) woke its task {n} time(s): the timer thread reached the deadline before it read the cancellation", t_poll.0, t_drop.0));
         }
     }
 }
